@@ -99,6 +99,20 @@ CHECKS = {
          "pre-repair logic refuted (C19_missing_crashes_refuted). gzip/ElementTree are oracles: the harness writes the XML. "
          "Correspondence X-corpus: generated subtitle trees, dangling links, n_threads 1..6, byte-exact output and .not_found.",
          "5 C19", "Coq proof (sort invariance, ordered imap state machine) + byte-exact differential correspondence"),
+ "C05": ("proof", "Theorems C05_conversion_fault_raises (a failing conversion job at ANY chunk position, every order of "
+         "submissions and deliveries: the finished call raises), C05_conversion_fault_terminates (bounded work and progress: it "
+         "never blocks), C05_thread_errors_raised (worker-thread exceptions are raised by the call), C05_failed_phase_raises / "
+         "C05_returns_only_if_all_phases_ok, C05_dict_duplicate_raises, with the pre-repair logic refuted "
+         "(C05_error_in_handler_blocks_refuted, C05_thread_errors_swallowed_refuted). Correspondence X-fault: 8 learners x fault "
+         "kinds x positions x swept byte budgets under a deadline. Partial: 'bounded time' is a step bound in the model and a "
+         "deadline in the run; the Pool/thread semantics are assumptions validated by the runs.",
+         "5 C05", "Coq proof (protocol invariant under faults, termination measure) + fault injection runs under a deadline"),
+ "C17": ("proof", "Theorems C17_bracket_restores (a TemporaryDirectory block restores the file system for every body and every "
+         "failure point), C17_learner_clean (generator input: spool and chunk directories, both stages, every failure point), "
+         "C17_generator_leaks_refuted (pre-repair). Correspondence X-tmp: the whole C05 call matrix incl. generator input and "
+         "failing generators: recursive listings of the given and the system temporary directory before/after, sha256 of the "
+         "input. Partial: the file system, rmtree and terminate/rmtree races are observed, not modelled.",
+         "5 C17", "Coq proof (bracket structure over all failure points) + directory listings / input hash around every call"),
  "C06": ("proof", "Theorems C06_decode_encode, C06_kernel_reads_same (buffer re-allocation invariant, any ids per event), "
          "C06_bad_header_rejected / C06_good_chunks_accepted (any position in any chunk list), C06_flat_index_no_wrap / "
          "_injective (matrices with more than 2^32 cells), refuted variants for the pre-repair logic. Correspondence "
